@@ -305,6 +305,8 @@ def c_rvalue(s):
         if m:
             fields = tuple(c_operand(x) for x in split_top(m.group(2), ',')) if m.group(2) else ()
             return ('variant', m.group(1), fields)
+        m = re.fullmatch(r'((?:\w+::)+\w+)::<[^()]*>\((.*)\)', s)        # tuple struct of another crate: path::Name::<'_>(fields)
+        if m: return ('variant', m.group(1), tuple(c_operand(x) for x in split_top(m.group(2), ',')))
     return ('use', c_operand(s))
 
 _RE_GOTO = re.compile(r'goto -> bb(\d+)$')
